@@ -115,6 +115,8 @@ class World:
         try:
             with warnings.catch_warnings(record=True) as wlist:
                 warnings.simplefilter("always")
+                self._wlist = wlist
+                self._wseen = 0
                 for c in self.plan["clients"]:
                     if c.get("dynamic"):
                         continue
@@ -156,6 +158,7 @@ class World:
             "build_rejected": self.build_rejected,
             "fs_fired": list(env.fs.fired),
             "fs_files": dict(env.fs.files),
+            "fs_log": [list(x) for x in env.fs.log],
             "uuid_collisions": env.uuid.collisions_fired,
             "concrete_script": self.concrete_script,
             "warnings": self.warnings,
@@ -304,6 +307,7 @@ class World:
             tb = traceback.extract_tb(exc.__traceback__)
             ev["exc_where"] = [f"{fr.filename.rsplit('/', 1)[-1]}:{fr.name}" for fr in tb[-3:]]
         ev["faults"] = list(env.op_faults)
+        self._scan_prints(ev)
         ev["checks"] = env.op_checks
         ev["sim_dt"] = round(env.clock.now - t0, 6)
         if env.trace_level:
@@ -321,6 +325,59 @@ class World:
             cs["env"] = self._concretise(env_list, default, env.op_checks, env.resolved_steers[n_res0:])
             cs.pop("default", None)
         self.concrete_script.append(cs)
+
+    @staticmethod
+    def _marker(a):
+        if "Found optimum" in a:
+            return "bound" if "Stop incremental solver" in a else "optimum"
+        if "No solution found" in a:
+            return "no_solution"
+        if "Max time exceeded" in a:
+            return "max_time"
+        if "Max time expected" in a:
+            return "expected_time"
+        if "No solution can be found" in a:
+            return "unsat_msg" if "Unsatisfiable problem" in a else "unknown_msg"
+        if "Can't find a better solution" in a:
+            return "no_better"
+        return None
+
+    def _scan_prints(self, ev):
+        """what the library printed during this op: loop-exit markers and the Constraint
+        objects of an infeasibility diagnosis (objects, not parsed text)"""
+        from processscheduler.constraint import Constraint
+        recs = self.env.printer.records
+        marks = []
+        named = []
+        in_diag = False
+        for args in recs:
+            for a in args:
+                if isinstance(a, str):
+                    m = self._marker(a)
+                    if m:
+                        marks.append(m)
+                    if "Unsatisfied constraints" in a:
+                        in_diag = True
+                        ev["diagnosis_header"] = a.strip()
+                elif isinstance(a, Constraint) and in_diag:
+                    named.append(a.name)
+        if marks:
+            ev["prints"] = marks
+        if in_diag:
+            ev["diagnosis"] = named
+        self.env.printer.records = []
+        for w in self._pending_warnings():
+            if "maximum number of iteration" in w:
+                ev.setdefault("prints", []).append("max_iter")
+
+    def _pending_warnings(self):
+        out = []
+        wl = getattr(self, "_wlist", None)
+        if wl is not None:
+            while self._wseen < len(wl):
+                out.append(str(wl[self._wseen].message))
+                self._wseen += 1
+        return out
 
     def _concretise(self, env_list, default, n_checks, resolved):
         by_k = {r["k"]: r for r in resolved}
